@@ -6,6 +6,15 @@ V='/verif'
 ALL=['C%02d'%i for i in range(1,20)]
 # id -> (technique, level text, level note, design section)
 CHECKS={
+ 'C02':('runtime monitoring: generated models compiled with a reflective driver; JSON documents fed through UnmarshalJSON+Validate; differential oracle = go-openapi/validate on the input definition modulo the documented exceptions',
+        'held on the executions observed: every schema-shape atom x position (definition, required/optional property, items, map values, allOf member, $ref alias, nested) x instgen documents (bounds -1/0/+1, lengths, counts, enum misses, malformed formats, zero values, missing/extra properties, type confusion), plus seeded composite objects; generated accept/reject must be an allowed verdict. Known disagreements are listed by (atom@position, document class).',
+        'trusts go-openapi/validate v0.24.0 as reference; documented exceptions implemented in rig/oracle/modelsem.go; atoms whose generation/compilation fails are C01\'s','C02'),
+ 'C05':('runtime monitoring: generated models decode->encode->decode->encode reference-valid documents; schema-directed tree comparison + byte idempotence monitor',
+        'held on the executions observed: for every valid instgen document of every atom x position the re-encoded tree must keep every declared / allowed value at its path (three documented tolerances only), add nothing, and the second encoding must reproduce the first byte for byte; subtypes restored through base types.',
+        'document validity by go-openapi/validate; tolerances in rig/oracle/roundtrip.go; x-omitempty:false zero rendering is not counted as an addition','C05'),
+ 'C18':('runtime monitoring: spec -> swagger generate model -> swagger generate spec -m; keyword-by-keyword comparison of original and scanned definitions',
+        'held on the executions observed: every atom x position definition is pushed through both halves of the toolkit and compared on type, format (default-format equivalence), $ref, required, readOnly, bounds, lengths, pattern, enum, uniqueItems, item counts and property names at every nesting context. The (keyword, context) cells that are lost today are listed in known-findings.json; every other cell must be preserved.',
+        'generator-added inline definitions are compared through; multipleOf / min,maxProperties informational (outside the statement\'s enumeration)','C18'),
  'C12':('runtime monitoring: diff.Compare executed in child processes over identity variants and pair workloads, panic/crash/watchdog monitor, identity oracle',
         'held on the executions observed: every reference-valid repository fixture and hand-written hostile spec compared with itself and with JSON / YAML / list-shuffled re-serialisations (0 differences, exit 0 required), and several thousand (A,B) pairs for totality (no panic, no fatal error, no watchdog expiry). Exploration, not proof: shapes the corpus does not contain are not covered.',
         'trusts go-openapi/validate v0.24.0 for spec validity and go-openapi/loads for re-serialisation equality; watchdog expiry is inconclusive','C12'),
